@@ -5,6 +5,7 @@ CONSTANTS
   Lens <- L3
   OutLens <- O4
   TrailerLen = 2
+  DeclaredLen = FALSE
   Limit = 6
   Cuts = TRUE
   MaxWrite = 7
